@@ -19,12 +19,12 @@ ASSUMPTIONS = ['the peer keeps reading (progress of flush is not proved; termina
 def build(reg):
     handler.add_handler(reg)
     PRE, AL = handler.HANDLER_PRE, handler.HANDLER_ALIAS
-    WORKMOD = ['self.work.buffer', 'self.work._num_buffer', 'self.work.wire', 'self.work.Q', 'self.work.dead']
+    WORKMOD = ['self.work.buffer', 'self.work._num_buffer', 'self.work.wire', 'self.work.dead']
     # handle_data: abstract in the base class; HttpProtocolHandler's is verified under C06
     for cls in ('BaseTcpServerHandler', 'HttpProtocolHandler'):
         reg.contract(HH, cls + '.handle_data', params={'data': 'mv'}, result=('opt', 'bool'), self_cls=cls, assumed=True,
-                     modifies=['self.work.buffer', 'self.work._num_buffer', 'self.work.Q'],
-                     raise_modifies=['self.work.buffer', 'self.work._num_buffer', 'self.work.Q'],
+                     modifies=['self.work.buffer', 'self.work._num_buffer'],
+                     raise_modifies=['self.work.buffer', 'self.work._num_buffer'],
                      ensures=[('num', 'self.work._num_buffer == len(self.work.buffer)')],
                      raises={'Exception': [('num', 'self.work._num_buffer == len(self.work.buffer)')]})
     T = []
@@ -53,8 +53,8 @@ def build(reg):
     T.append(reg.contract(
         TS, 'BaseTcpServerHandler.handle_readables', self_cls='HttpProtocolHandler', params={'readables': ('list', 'int')},
         requires=PRE, alias=AL, result='bool',
-        modifies=['self.work.buffer', 'self.work._num_buffer', 'self.work.Q', 'self.must_flush_before_shutdown', 'self.work.dead'],
-        raise_modifies=['self.work.buffer', 'self.work._num_buffer', 'self.work.Q', 'self.work.dead'],
+        modifies=['self.work.buffer', 'self.work._num_buffer', 'self.must_flush_before_shutdown', 'self.work.dead'],
+        raise_modifies=['self.work.buffer', 'self.work._num_buffer', 'self.work.dead'],
         ensures=[('T1', 'result ==> (len(self.work.buffer) == 0 or self.work.dead or not contains(readables, %s) or True)' % FD),
                  ('T4', '(not result and len(self.work.buffer) > 0 and not old(self.must_flush_before_shutdown) and '
                         'self.must_flush_before_shutdown) ==> contains(readables, %s)' % FD),
@@ -77,9 +77,9 @@ def build(reg):
     T.append(reg.contract(
         HH, 'HttpProtocolHandler.handle_readables', self_cls='HttpProtocolHandler', params={'readables': ('list', 'int')},
         requires=PRE, alias=AL, result='bool',
-        modifies=['self.work.buffer', 'self.work._num_buffer', 'self.work.Q', 'self.must_flush_before_shutdown',
+        modifies=['self.work.buffer', 'self.work._num_buffer', 'self.must_flush_before_shutdown',
                   'self.work.dead', 'self.last_activity'],
-        raise_modifies=['self.work.buffer', 'self.work._num_buffer', 'self.work.Q', 'self.work.dead', 'self.last_activity',
+        raise_modifies=['self.work.buffer', 'self.work._num_buffer', 'self.work.dead', 'self.last_activity',
                         'self.must_flush_before_shutdown'],
         ensures=[('num', 'self.work._num_buffer == len(self.work.buffer)'),
                  ('wire', 'self.work.wire == old(self.work.wire)')],
@@ -88,9 +88,9 @@ def build(reg):
         HH, 'HttpProtocolHandler.handle_events', self_cls='HttpProtocolHandler',
         params={'readables': ('list', 'int'), 'writables': ('list', 'int')},
         requires=PRE, alias=AL, result='bool',
-        modifies=['self.work.buffer', 'self.work._num_buffer', 'self.work.wire', 'self.work.Q', 'self.work.dead',
+        modifies=['self.work.buffer', 'self.work._num_buffer', 'self.work.wire', 'self.work.dead',
                   'self.must_flush_before_shutdown', 'self.last_activity', 'self.writes_teared', 'self.reads_teared'],
-        raise_modifies=['self.work.buffer', 'self.work._num_buffer', 'self.work.wire', 'self.work.Q', 'self.work.dead',
+        raise_modifies=['self.work.buffer', 'self.work._num_buffer', 'self.work.wire', 'self.work.dead',
                         'self.must_flush_before_shutdown', 'self.last_activity', 'self.writes_teared', 'self.reads_teared'],
         ensures=[('T1-teardown-only-when-delivered', 'result ==> (len(self.work.buffer) == 0 or self.work.dead)'),
                  ('T3-reads-done', '(self.reads_teared and len(self.work.buffer) == 0) ==> result'),
